@@ -79,9 +79,9 @@ Proof.
   assert (mem_t TWaitHandlers (done_of cfg c) = true /\ mem_t TSockClose (done_of cfg c) = true) as [Ha Hb].
   { unfold done_of in *. destruct (pc c) as [| | |k sc|todo|]; cbn in E; try discriminate.
     - destruct Hsuf as [Hsuf Hlen].
-      destruct (teardown_of_cases cfg) as [Et|Et]; rewrite Et in *; cbn [length] in *;
-        destruct todo as [|a [|b [|c0 [|d r]]]]; cbn in *; try discriminate; try lia; auto.
-    - destruct (teardown_of_cases cfg) as [Et|Et]; rewrite Et in *; cbn; auto. }
+      destruct (teardown_of_cases cfg) as [Et|[Et|[Et|Et]]]; rewrite Et in *; cbn [length] in *;
+        destruct todo as [|a [|b [|c0 [|d [|e0 r]]]]]; cbn in *; try discriminate; try lia; auto.
+    - destruct (teardown_of_cases cfg) as [Et|[Et|[Et|Et]]]; rewrite Et in *; cbn; auto. }
   specialize (Hwait Ha). rewrite Hwait in Hinf. rewrite Hsc, Hb.
   repeat split; auto. destruct (hs c); [reflexivity|discriminate].
 Qed.
@@ -97,7 +97,7 @@ Theorem c08_every_ending cfg s i c : reachable cfg s -> conn_of s i c -> pc c = 
 Proof.
   intros Hr Hc Hpc. destruct (forall_conn (td_inv_reachable cfg s Hr) Hc) as (_ & Hoc & Hsc & Hwg & Hwait & _).
   unfold done_of in *. rewrite Hpc in *.
-  destruct (teardown_of_cases cfg) as [E|E]; rewrite E in *; cbn in *; rewrite andb_true_r in Hoc; auto.
+  destruct (teardown_of_cases cfg) as [E|[E|[E|E]]]; rewrite E in *; cbn in *; rewrite andb_true_r in Hoc; auto.
 Qed.
 
 (* every way out of the read loop goes through the teardown: from a state
@@ -182,7 +182,7 @@ Proof.
     destruct (negb (hstep_enabled s c h)); [discriminate|].
     destruct h; [|destruct (recovery cfg)|..]; inversion H; subst; cbn; auto; try (rewrite Epc; auto).
   - destruct todo as [|t rest]; [inversion H; subst; cbn; auto; try (rewrite Epc; auto)|].
-    destruct t; [|destruct (inflight c =? 0); [|discriminate]| |destruct (negb (has_onclose cfg)); [|destruct (onclose_held s); [discriminate|]]];
+    destruct t; [|destruct (inflight c =? 0); [|discriminate]| |destruct (negb (has_onclose cfg)); [|destruct (onclose_held s); [discriminate|]]|];
       inversion H; subst; cbn; auto; try (rewrite Epc; auto).
   - discriminate.
 Qed.
